@@ -8,7 +8,7 @@ itself defined in src/error.rs, the variants of that enum (two levels below `Dia
 of variant indices (`DialError::AddressError(_)` -> [1]; `DialError::DnsError(DnsError::ResolveError(_))`
 -> [2; 0]; `_` -> []) with the value of the score expression.
 
-Written to coq/gen/DialErrors.v on every check. The model's `error_score` *interprets* the arm table
+Written to coq/gen/DialErrors.v (and the names also to harness/src/gen_c10_errors.rs) on every check. The model's `error_score` *interprets* the arm table
 (first matching prefix, as Rust's `match`), and coq/C10 proves `variants_in_sync` (the model's
 constructor names, in order, are exactly the extracted variant names) — so a new/renamed/reordered
 variant or a changed mapping changes the model or breaks a proof obligation of ./check C10.
@@ -22,6 +22,7 @@ import sys
 
 HERE = os.path.dirname(os.path.abspath(__file__))
 OUT = os.path.join(HERE, "..", "coq", "gen", "DialErrors.v")
+OUT_RS = os.path.join(HERE, "..", "harness", "src", "gen_c10_errors.rs")
 ERR = "src/error.rs"
 ADDR = "src/transport/manager/address.rs"
 
@@ -277,6 +278,28 @@ def write(variants, gates, arms, consts):
     old = open(OUT).read() if os.path.exists(OUT) else None
     if old != text:
         open(OUT, "w").write(text)
+    # the same names for the harness, which checks its own (hand-written) table of variant
+    # indices against them through the Debug names of the values it builds
+    def rstrs(l):
+        return "&[" + ", ".join('"%s"' % x for x in l) + "]"
+
+    rs = [
+        "// GENERATED by tools/gen_c10_errors.py from src/error.rs on every check. Do not edit.",
+        "// DialError: variant, the variants of its payload enum, and of theirs (in the order of the source).",
+        "#[rustfmt::skip]",
+        "pub const VARIANTS: &[(&str, &[(&str, &[&str])])] = &[",
+    ]
+    for n1, l2 in variants:
+        rs.append('    ("%s", &[%s]),' % (n1, ", ".join('("%s", %s)' % (n2, rstrs(l3)) for n2, l3 in l2)))
+    rs.append("];")
+    rs.append("// cfg(feature = ..) gates on variants (by index path): 1 quic, 2 websocket, 9 other")
+    rs.append("#[rustfmt::skip]")
+    rs.append("pub const GATES: &[(&[u64], u64)] = &[%s];"
+              % ", ".join("(&[%s], %d)" % (", ".join(str(x) for x in p), g) for p, g in gates))
+    rtext = "\n".join(rs) + "\n"
+    old = open(OUT_RS).read() if os.path.exists(OUT_RS) else None
+    if old != rtext:
+        open(OUT_RS, "w").write(rtext)
 
 
 if __name__ == "__main__":
